@@ -585,6 +585,13 @@ def _initialize_components(n_components, input, y=None, init='auto',
         sys.stdout.flush()
       lda.fit(input, y)
       transformation = lda.scalings_.T[:n_components]
+      if transformation.shape[0] < n_components:
+        # LDA yields at most rank(between-class scatter) directions (fewer than
+        # n_classes - 1 when class means are nearly collinear): as documented,
+        # the rest of the components are zero
+        transformation = np.vstack([
+            transformation,
+            np.zeros((n_components - transformation.shape[0], n_features))])
     if verbose:
       print('done in {:5.2f}s'.format(time.time() - init_time))
     return transformation
